@@ -789,6 +789,19 @@ fn builtin_read_to_string(args: Vec<Rc<Object>>) -> Result<Rc<Object>, String> {
                 }
             }
             FileHandle::Writer(_) => Err(String::from("cannot read from a writer")),
+            FileHandle::Stdin => {
+                let mut result_bytes = Vec::new();
+                match io::stdin().read_to_end(&mut result_bytes) {
+                    Ok(_) => {}
+                    Err(e) => {
+                        return Ok(Rc::new(Object::Err(ErrorObj::IO(e))));
+                    }
+                }
+                match String::from_utf8(result_bytes) {
+                    Ok(s) => Ok(Rc::new(Object::Str(s))),
+                    Err(e) => Ok(Rc::new(Object::Err(ErrorObj::Utf8(e)))),
+                }
+            }
             _ => Err(String::from("invalid file handle")),
         }
     } else {
